@@ -3,7 +3,7 @@ NEXT MNext
 CONSTANTS
   MaxDepth = 4
   LawDepth = 0
-  SeedBodies <- Bodies
+  SeedBodies <- MapBodies
   SeedLayers <- MapLayers
   SeedWraps <- PlainWrap
 INVARIANT MEmitHist
